@@ -6,6 +6,7 @@
      "branch"   BzrBranch (control_files = LockableFiles over LockDir; token passed through)
      "repo"     PackRepository (_write_lock_count for writes: NO underlying lock, token ignored;
                 control_files read lock for reads)
+     "knitrepo" breezy.repository.Repository's generic locking over control_files (knit format; token passed through)
      "tree"     DirStateWorkingTree (lock_read / lock_write / lock_tree_write, no tokens; takes the branch lock too:
                 read for lock_read and lock_tree_write, write for lock_write)
    One deterministic step function Step(w, s, op) describes all of them; the MC module explores all call
@@ -24,7 +25,7 @@
      dev   : on-disk event of the last call: "none" | "take" (rename -> held) | "drop" (rename held -> ...) *)
 EXTENDS Integers, Sequences, FiniteSets
 
-Wrappers == {"counted", "lockable", "branch", "repo", "tree"}
+Wrappers == {"counted", "lockable", "branch", "repo", "knitrepo", "tree"}
 WriteOps == {"lock_write", "lock_write_good", "lock_write_bad", "lock_tree_write"}
 EnvOps == {"ext_acquire", "ext_release"}
 Ops(w) == CASE w = "repo" -> {"lock_read", "lock_write", "lock_write_good", "lock_write_bad", "unlock"}
